@@ -2,7 +2,7 @@ from api import H, prop, mut, claim, SHARED, PROPERTIES
 MQ = list(PROPERTIES["C04"]["harnesses"])
 RB = list(PROPERTIES["C05"]["harnesses"])
 FB = [h for h in PROPERTIES["C06"]["harnesses"] if h.entry in ("h_irq_run_atomic", "h_irq_eventq_send") or
-      (h.entry == "h_irq_drain" and ("_rq0_tq0" in h.name or "_rq1_tq1" in h.name))]   # the ownership facts do not depend on the queue shapes: two partitions
+      (h.entry in ("h_irq_drain", "h_irq_drain_step") and ("_rq0_tq0" in h.name or "_rq1_tq1" in h.name))]   # the ownership facts do not depend on the queue shapes: two partitions
 FALL = [H("atomic_h_fallback_mapping", "harness/C07_atomic_fallback.c", "h_fallback", ["include/librfn/atomic.h (fallback macros)"], timeout=120, solvers=("cadical",))]
 prop("C07", "other",
      "CBMC has no C11 memory model, so the property is decided through the DRF-SC theorem (a program whose atomic operations are all seq_cst and that has no data race in any sequentially consistent "
